@@ -35,6 +35,7 @@ theorem RelL.mem {cs ms} (hl : RelL cs ms) (P : Chunk → Prop) (hP : ∀ c ∈ 
 theorem lcDust_eq (t : Ty) (n : Nat) : Spec.lcDust t n = lcOf t.lc5 n := by
   cases t with
   | struct x ms => cases x <;> simp [Spec.lcDust, lcOf, Ty.lc5]
+  | union a d bs => cases a <;> simp [Spec.lcDust, lcOf, Ty.lc5]
   | _ => simp [Spec.lcDust, lcOf, Ty.lc5]
 
 theorem alignPad_eq' (ver : Ver) (n pos : Nat) (hn : n = 1 ∨ n = 2 ∨ n = 4 ∨ n = 8) :
